@@ -385,9 +385,12 @@ func (c *cluster) reload(cli EtcdClient) {
 }
 
 func (c *cluster) watch(cli EtcdClient, key watchKey, rev int64) {
-	c.lock.RLock()
+	c.lock.Lock()
+	if _, ok := c.watchers[key]; !ok {
+		c.watchers[key] = newWatchValue()
+	}
 	done := c.done
-	c.lock.RUnlock()
+	c.lock.Unlock()
 	c.watchUntil(cli, key, rev, done)
 }
 
@@ -459,16 +462,19 @@ func (c *cluster) setupWatch(cli EtcdClient, key watchKey, rev int64) (context.C
 	}
 
 	ctx, cancel := context.WithCancel(cli.Ctx())
-	if watcher, ok := c.watchers[key]; ok {
-		watcher.cancel = cancel
-	} else {
-		val := newWatchValue()
-		val.cancel = cancel
-
-		c.lock.Lock()
-		c.watchers[key] = val
+	c.lock.Lock()
+	watcher, ok := c.watchers[key]
+	if !ok {
 		c.lock.Unlock()
+		// the key is not monitored anymore, Unmonitor removed the watcher while the stream
+		// was restarted or the values were loaded, a watcher created here would have no
+		// listeners and none of the loaded values, and the next subscriber would join it.
+		cancel()
+		return ctx, nil
 	}
+
+	watcher.cancel = cancel
+	c.lock.Unlock()
 
 	rch = cli.Watch(clientv3.WithRequireLeader(ctx), wkey, ops...)
 
